@@ -19,7 +19,6 @@ fn wanted(v: &Violation, prop: &str) -> bool {
 
 fn main() {
     install_panic_hook();
-    mmv::monitor::install_progress_guard();
     let args = Args::parse();
     let prop = args.str("prop", "all");
     let known = args.list("known");
@@ -39,6 +38,7 @@ fn main() {
             }
         }
         let h = History::parse(&text).expect("cannot parse replay file");
+        mmv::monitor::install_progress_guard();
         let opts = RunOpts { known: known.clone(), stop_at_first: false, drop_at: args.get("drop-at").and_then(|s| s.parse().ok()), light: false, prop: prop.clone() };
         let (res, known_hits) = run_history(&h, opts);
         let mut bad = 0;
@@ -60,6 +60,8 @@ fn main() {
         mmv_pure::run_main(&args);
         return;
     }
+    // the driver resets the guard's counters at every step
+    mmv::monitor::install_progress_guard();
     let profile = Profile::parse(&args.str("profile", "general")).expect("unknown profile");
     let seed = args.u64("seed", 1);
     let n = args.u64("histories", 100);
